@@ -9,6 +9,7 @@ import (
 	"compress/gzip"
 	"fmt"
 	"io"
+	"iter"
 	"math"
 	"os"
 	"path/filepath"
@@ -296,6 +297,56 @@ func collect(run func(cb func(Item) bool), limit int) (items []Item, over bool, 
 			if it.Err == nil && it.canon != nil {
 				if now := it.canon(); now != it.Rec {
 					return items, over, fmt.Sprintf("(no panic) record item %d changed after it was yielded: was %s, is now %s", i, it, Item{Rec: now})
+				}
+			}
+		}
+	}
+	return
+}
+
+// lockstep decodes several streams with one reader each, advancing the readers in turn the
+// way paired files are read: reader i joins in round i, then every live reader delivers one
+// item per round. What a reader yields for its bytes must not depend on other readers being
+// in use at the same time, so each must yield exactly what it yields when it runs alone; the
+// records are canonicalised again after all readers have finished (as in collect).
+func lockstep(codec *Codec, readers []io.Reader, limit int) (out [][]Item, panicked any) {
+	out = make([][]Item, len(readers))
+	panicked = catch(func() {
+		next := make([]func() (Item, bool), len(readers))
+		stop := make([]func(), len(readers))
+		for i, r := range readers {
+			r := r
+			next[i], stop[i] = iter.Pull(func(yield func(Item) bool) { codec.Reader(r, yield) })
+		}
+		defer func() {
+			for _, st := range stop {
+				st()
+			}
+		}()
+		live := len(readers)
+		done := make([]bool, len(readers))
+		for round := 0; live > 0; round++ {
+			for i := range readers {
+				if done[i] || round < i {
+					continue
+				}
+				it, ok := next[i]()
+				if !ok || len(out[i]) >= limit {
+					done[i] = true
+					live--
+					continue
+				}
+				out[i] = append(out[i], it)
+			}
+		}
+	})
+	if panicked == nil {
+		for r := range out {
+			for i, it := range out[r] {
+				if it.Err == nil && it.canon != nil {
+					if now := it.canon(); now != it.Rec {
+						return out, fmt.Sprintf("(no panic) record item %d of reader %d changed after it was yielded: was %s, is now %s", i, r, it, Item{Rec: now})
+					}
 				}
 			}
 		}
